@@ -123,6 +123,10 @@ def find_impl(src: str, masked: str, header: str):
     """Locate `impl ... {` whose whitespace-normalised header equals `header` (or, if header is
     /regex/, matches it).  Returns (hdr_start, open_brace, close_brace)."""
     hits = []
+    occ = None
+    mo = re.match(r"^(.*)#(\d+)$", header)
+    if mo:   # `header#k`: the k-th of several impl blocks with the same header (textual order)
+        header, occ = mo.group(1), int(mo.group(2))
     for m in re.finditer(r"(?m)^[ \t]*(unsafe\s+)?impl\b", masked):
         ob = first_open_brace(masked, m.end())
         if ob < 0:
@@ -134,6 +138,10 @@ def find_impl(src: str, masked: str, header: str):
             ok = hdr == norm(header)
         if ok:
             hits.append((m.start() + len(m.group(0)) - len(m.group(0).lstrip()), ob, match_brace(masked, ob)))
+    if occ is not None:
+        if occ >= len(hits):
+            raise AnchorError(f"impl header {header!r}#{occ}: only {len(hits)} matches")
+        return hits[occ]
     if len(hits) != 1:
         raise AnchorError(f"impl header {header!r}: {len(hits)} matches")
     return hits[0]
